@@ -456,6 +456,22 @@ from history import rule_history  # noqa: E402
 PROPERTIES["C07"]["rules"] += [("HISTORY", lambda ctx: rule_history(ctx.lib))]
 PROPERTIES["C07"]["explanation"] += " (HISTORY) Necessary condition of the replay clause: SessionHistory::push appends every evaluated input unconditionally and unchanged, and save_inner skips an item only when it failed and error lines are excluded."
 
+from bindorder import rule_bindorder  # noqa: E402
+
+PROPERTIES["C09"]["rules"] += [("BINDORDER", lambda ctx: rule_bindorder(ctx.lib))]
+PROPERTIES["C09"]["explanation"] += " (BINDORDER) Necessary condition of 'every name refers to its innermost binding': compile_define_variable pushes the new Local only after the initializer's compile_expression call (MIR dominators), and the DefineFunction arm lays the frame out as scope-open, parameters, where-locals, body, Return, scope-close."
+
+from dtarith import rule_dtarith  # noqa: E402
+
+PROPERTIES["C19"]["rules"] += [("DTARITH", lambda ctx: rule_dtarith(ctx.lib))]
+PROPERTIES["C19"]["explanation"] += " (DTARITH) Necessary conditions of `(t + d) - t == d`: the f64 duration is split into whole seconds and nanoseconds with one rounding mode from one value (truncation pairs with fract()), AddToDateTime/SubFromDateTime apply checked_add/checked_sub to the popped date-time, and DiffDateTime subtracts the right operand (popped first) from the left."
+
+from fmttab import rule_fmttab  # noqa: E402
+
+PROPERTIES["C24"]["rules"] += [("FMTTAB", lambda ctx: rule_fmttab(ctx.lib, ctx.nbt))]
+PROPERTIES["C24"]["explanation"] += " (FMTTAB) Writer/reader table agreement: every literal date-time string passed to datetime() in an @example or a library body (and the templates today()/date() build) is accepted by one of the strptime calls of datetime::parse_datetime, whose format sets are computed from the const table, the for-loop pattern and the lowered format! template; ISO 8601 / RFC 2822 strings are left undecided."
+PROPERTIES["C24"]["assumptions"] = list(PROPERTIES["C24"].get("assumptions", [])) + ["the regular-expression model of jiff's strptime directives (%Y %m %d %H %I %M %S %p %.f %z, whitespace = \\s*) in engine/rules/fmttab.py; unknown directives make a site opaque (nothing is reported against it)"]
+
 NOT_APPLICABLE = {
     "C03": "numerical agreement of conversion factors over 500 units is a statement about run-time values; no structural clause is a necessary condition that is not already covered under C04/C11/C12 (static analysis cannot bound the arithmetic)",
     "C14": "a statement about the decimal rendering of every f64 under every format setting; the code delegates to pretty_dtoa/num_format and no structural clause of Number::pretty_print_with_dtoa_config can be decided without evaluating it",
